@@ -705,6 +705,32 @@ pub fn degenerate_keys<B: Backend>() -> Vec<(Target, &'static str, Vec<u8>)> {
             let mm = [&a.to_bytes()[..], b2.verifying_key().as_bytes()].concat();
             out.push((Target::KeySecret, "seed-public-mismatch", mm.clone()));
             out.push((Target::KeyPkeSecret, "seed-public-mismatch", mm));
+            // the right seed with the public half moved by a small-order point (A + T): a "does a signature
+            // made with it verify" test accepts about half of these, re-deriving the public half rejects all
+            for seed_byte in [1u8, 3, 9, 11, 12, 200] {
+                let sk = ed25519_dalek::SigningKey::from_bytes(&[seed_byte; 32]);
+                if let Some(a) = curve25519_dalek::edwards::CompressedEdwardsY(sk.verifying_key().to_bytes()).decompress() {
+                    for (ti, t) in curve25519_dalek::constants::EIGHT_TORSION.iter().enumerate().skip(1) {
+                        let shifted = (a + t).compress().to_bytes();
+                        let key = [&sk.to_bytes()[..], &shifted[..]].concat();
+                        let label: &'static str = ["", "public-half-plus-torsion-1", "public-half-plus-torsion-2", "public-half-plus-torsion-3", "public-half-plus-torsion-4", "public-half-plus-torsion-5", "public-half-plus-torsion-6", "public-half-plus-torsion-7"][ti];
+                        out.push((Target::KeySecret, label, key.clone()));
+                        out.push((Target::KeyPkeSecret, label, key));
+                    }
+                }
+            }
+            // a valid key with filler between its two halves (a decoder that takes the first and the last 32 bytes)
+            let good = [&a.to_bytes()[..], a.verifying_key().as_bytes()].concat();
+            for fill in [1usize, 8, 32, 64, 528] {
+                let k = [&good[..32], &vec![0x5au8; fill][..], &good[32..]].concat();
+                out.push((Target::KeySecret, "filler-between-halves", k.clone()));
+                out.push((Target::KeyPkeSecret, "filler-between-halves", k));
+            }
+            for fill in [1usize, 32] {
+                out.push((Target::KeySecret, "halves-repeated", [&good[..32], &good[..32], &good[32..]].concat()));
+                out.push((Target::KeyPublic, "filler-inside", [&good[32..48], &vec![0u8; fill][..], &good[48..]].concat()));
+                out.push((Target::KeyLocal, "filler-inside", [&good[..16], &vec![0u8; fill][..], &good[16..32]].concat()));
+            }
         }
         _ => {
             // RSA: wrong sizes, degenerate exponents, truncated / trailing bytes, PEM with junk
@@ -942,6 +968,11 @@ pub fn backend<B: Backend>(opts: &Opts, rep: &mut Report) {
             }
             for (a, b) in [(0usize, 6usize), (6, 0), (2, 7), (16, 15), (15, 16)] {
                 texts.push(format!("{{\"exp\":\"{}\",\"nbf\":\"{}\"}}", TS[a], TS[b]));
+            }
+            for member in ["iss", "sub", "aud", "jti", "exp", "nbf", "iat"] {
+                for v in ["[]", "[\"x\"]", "[\"\"]", "[\"a\",\"b\"]", "[[]]", "{}", "{\"0\":\"x\"}", "\"\"", "0", "-1", "1e400", "true", "[null]", "null"] {
+                    texts.push(format!("{{\"{member}\":{v}}}"));
+                }
             }
             texts.extend(["{\"exp\":253402300799}", "{\"exp\":null,\"nbf\":null}", "{\"exp\":{\"secs\":1}}", "{\"sub\":null,\"iss\":7}", "{}", "[]", "null", "{\"exp\":\"9999-12-30T22:00:00Z\",\"exp\":\"2000-01-01T00:00:00Z\"}"].map(String::from));
             for (ti, text) in texts.iter().enumerate() {
